@@ -5,7 +5,7 @@ CONSTANTS
   Leafs = {101, 102}
   Shapes = {200, 201, 210, 211, 220}
   MaxLen = 3
-  Acts = {"dict", "list", "perm", "clone", "forget", "slice", "rebind", "inplace", "json"}
+  Acts = {"dict", "list", "perm", "clone", "forget", "slice", "rebind", "inplace", "json", "construct"}
   Mirror = FALSE
   MaxLevel = 40
   InitKinds <- IK_DictList
